@@ -525,3 +525,18 @@ func (e *Engine) verifyCallers(callee string, res *FuncResult) {
 	o := &Obligation{Name: "callers." + callee, Func: "callers." + callee, Kind: "callgraph", Pos: e.pos(e.funcs[callee].Decl.Pos()), Clause: clause, Goal: goal, vc: vc}
 	res.Obls = []*Obligation{o}
 }
+
+func (x *Exec) hasAnchor(kind, text string, at ast.Node) bool {
+	fr := x.frame
+	if fr == nil || fr.contract == nil {
+		return false
+	}
+	want := kind + " " + text
+	full := kind + " " + normSpace(x.e.srcText(at))
+	for _, c := range fr.contract.Clauses {
+		if (c.Kind == "at-assert" || c.Kind == "at-assume") && (c.Anchor == want || (strings.Contains(c.Anchor, "(") && strings.HasPrefix(full, c.Anchor))) {
+			return true
+		}
+	}
+	return false
+}
